@@ -29,6 +29,7 @@ def main():
     from lib.check import Ctx
     from lib.tlc import TLCError
     from lib import replay
+    from lib.sandbox import DriverCrash
     replay.start_workers()          # fork the replay workers while this process is small
     mod = importlib.import_module('checks.%s' % a.pid.lower())
     ctx = Ctx(a.pid, a.tier, seed)
@@ -40,6 +41,9 @@ def main():
     except TLCError as exc:
         print('MACHINERY-FAILURE %s: %s' % (a.pid, exc), flush=True)
         return 2
+    except DriverCrash as exc:
+        # billiard raised on a call that is valid (and works) on the unchanged tree
+        ctx.violation(exc.what, 'observed:driver-crash:%s' % a.pid, replay={'log': exc.log})
     except Exception:
         traceback.print_exc()
         print('MACHINERY-FAILURE %s' % a.pid, flush=True)
